@@ -386,20 +386,23 @@ func randOp(rg *rand.Rand, macs int, useRad bool) string {
 	}
 }
 
-// exhaustive: every sequence of length <= 4 after "padr m1" over a reduced alphabet, two MACs, one session
+// exhaustive: every sequence of length 4 after "padr m1 cookie" over an alphabet of two MACs acting on
+// session 1 (created for m1) and on session 2 (created when a second PADR arrives), incl. sweep,
+// Configure-Nak, echo, RADIUS reject/no-answer and a PADR without cookie.
 func exhaustive(emit func([]string)) {
 	var alpha []string
 	for _, m := range []string{"m1", "m2"} {
-		alpha = append(alpha, "padr "+m+" cookie", "padt "+m+" 1",
-			"lcp "+m+" 1 cack", "lcp "+m+" 1 term", "lcp "+m+" 1 creq",
-			"pap "+m+" 1 good accept", "pap "+m+" 1 good reject",
-			"ipcp "+m+" 1 creq-ip", "ipcp "+m+" 1 creq-none", "ipcp "+m+" 1 cack", "ip "+m+" 1")
+		alpha = append(alpha, "padr "+m+" cookie", "padt "+m+" 1", "padt "+m+" 2",
+			"lcp "+m+" 1 cack", "lcp "+m+" 1 term", "lcp "+m+" 2 cack",
+			"pap "+m+" 1 good accept", "pap "+m+" 1 good reject", "pap "+m+" 2 good accept", "pap "+m+" 1 bad down",
+			"ipcp "+m+" 1 creq-ip", "ipcp "+m+" 1 creq-none", "ipcp "+m+" 1 cack", "ipcp "+m+" 2 cack", "ip "+m+" 1")
 	}
+	alpha = append(alpha, "sweep", "lcp m1 1 cnak", "lcp m1 1 echo", "ipcp m1 1 creq-dns", "padr m2 nocookie")
 	for _, rad := range []string{"noradius", "radius"} {
 		var rec func(prefix []string, d int)
 		rec = func(prefix []string, d int) {
 			if d == 0 {
-				emit(append([]string{"new " + rad + " 30", "padr m1 cookie"}, prefix...))
+				emit(append([]string{"new " + rad + " 29", "padr m1 cookie"}, prefix...))
 				return
 			}
 			for _, a := range alpha {
